@@ -222,6 +222,9 @@ class ExecutorDied(Broken):
         return (ExecutorDied, (self.status, self.req, self.cmd))
 
 
+EXECUTOR_RESTARTS = []
+
+
 class Mon:
     """A persistent executor process: one JSON request per line in, one JSON
     reply per line out."""
@@ -236,12 +239,28 @@ class Mon:
             e.update(env)
         self.args = list(prefix) + [os.path.join(BIN, binary), mode]
         self.umask = 0o022 if umask == -1 else umask
-        self.p = subprocess.Popen(self.args, stdin=subprocess.PIPE, stdout=subprocess.PIPE, stderr=open("/dev/full", "wb") if stderr_full else None,
-                                  env=e, preexec_fn=preexec, cwd=cwd, umask=umask)
+        self.mode = mode
+        self._spawn = lambda: subprocess.Popen(self.args, stdin=subprocess.PIPE, stdout=subprocess.PIPE, stderr=open("/dev/full", "wb") if stderr_full else None,
+                                               env=e, preexec_fn=preexec, cwd=cwd, umask=umask)
+        self.p = self._spawn()
 
     def call(self, req):
-        self.p.stdin.write((json.dumps(req) + "\n").encode())
-        self.p.stdin.flush()
+        try:
+            self.p.stdin.write((json.dumps(req) + "\n").encode())
+            self.p.stdin.flush()
+        except (BrokenPipeError, OSError):
+            # the executor was gone BEFORE this request reached it, i.e. it went away between two requests (its last reply was complete): no
+            # library call was in progress - something outside killed it. The stateless executors are started again and the request is sent
+            # once more (counted in the evidence); one that holds state (layers: context and handles) is reported as dead.
+            rc = self.p.wait()
+            if self.mode in ("env", "parse", "inventory", "emit", "pkg") and not getattr(self, "_restarted", False):
+                self._restarted = True
+                EXECUTOR_RESTARTS.append((self.mode, rc))
+                self.p = self._spawn()
+                self.p.stdin.write((json.dumps(req) + "\n").encode())
+                self.p.stdin.flush()
+            else:
+                raise ExecutorDied(rc, req, self.args)
         line = self.p.stdout.readline()
         if not line:
             rc = self.p.wait()
@@ -469,6 +488,10 @@ class Shard:
             self.violations.append({"sig": sig, "what": what, "case": case})
 
     def dict(self):
+        if EXECUTOR_RESTARTS:
+            # (executors that something outside killed between two requests and that were started again: see Mon.call)
+            self.counters["executors_restarted_after_dying_between_requests"] = self.counters.get("executors_restarted_after_dying_between_requests", 0) + len(EXECUTOR_RESTARTS)
+            del EXECUTOR_RESTARTS[:]
         return {"evaluations": self.evaluations, "nontrivial": self.nontrivial, "samples": self.samples,
                 "violations": self.violations, "inconclusive": self.inconclusive,
                 "counters": self.counters, "sets": self.sets}
